@@ -420,3 +420,418 @@ Proof.
   - unfold o. rewrite Ehd. cbn [map nth_error]. rewrite Htree. reflexivity.
 Qed.
 End OrderSpec.
+
+(* ------------------------------------------------------------------ *)
+(* 7. bits <-> bytes, completion tag                                   *)
+(* ------------------------------------------------------------------ *)
+Lemma bytes_to_bits_cons x r : bytes_to_bits (x :: r) = to_bits 8 x ++ bytes_to_bits r.
+Proof. reflexivity. Qed.
+
+Lemma aligned_roundtrip : forall n l, length l = (8 * n)%nat ->
+  bytes_to_bits (bits_to_bytes l) = l /\ length (bits_to_bytes l) = n /\ bytes_ok (bits_to_bytes l).
+Proof.
+  induction n as [|n IH]; intros l Hl.
+  - destruct l; [|discriminate]. cbn [bits_to_bytes bytes_to_bits flat_map length].
+    split; [reflexivity|]. split; [reflexivity|constructor].
+  - destruct l as [|b7 [|b6 [|b5 [|b4 [|b3 [|b2 [|b1 [|b0 r]]]]]]]]; cbn [length] in Hl; try lia.
+    rewrite bits_to_bytes_cons8. destruct (IH r ltac:(lia)) as (E1 & E2 & E3).
+    rewrite bytes_to_bits_cons, E1. cbn [length]. rewrite E2.
+    split; [|split; [reflexivity|]].
+    + pose proof (to_bits_of_bits [b7; b6; b5; b4; b3; b2; b1; b0]) as Ht. cbn [length] in Ht.
+      rewrite Ht. reflexivity.
+    + constructor; [|exact E3]. exact (of_bits_bound [b7; b6; b5; b4; b3; b2; b1; b0]).
+Qed.
+
+Lemma s_pad_length bits : length (s_pad bits) = (8 * ((length bits + 7) / 8))%nat.
+Proof.
+  unfold s_pad. destruct (Nat.eqb_spec (length bits mod 8) 0) as [E|E].
+  - lia.
+  - rewrite !app_length, repeat_length. cbn [length]. lia.
+Qed.
+
+Lemma data_bytes_facts bits :
+  bytes_to_bits (data_bytes bits) = s_pad bits /\
+  length (data_bytes bits) = ((length bits + 7) / 8)%nat /\ bytes_ok (data_bytes bits).
+Proof. rewrite data_bytes_pad. apply aligned_roundtrip. apply s_pad_length. Qed.
+
+Fixpoint untag_drop (l : list bool) (k : nat) : option (list bool) :=
+  match k with
+  | O => None
+  | S k' => match l with
+            | true :: r => Some (rev r)
+            | false :: r => untag_drop r k'
+            | [] => None
+            end
+  end.
+
+Lemma s_untag_eq bytes aug : s_untag bytes aug =
+  let bits := bytes_to_bits bytes in
+  if negb aug then Some bits
+  else match rev bits with [] => None | _ :: _ => untag_drop (rev bits) 7 end.
+Proof. reflexivity. Qed.
+
+Lemma untag_drop_spec : forall k n r, (k < n)%nat ->
+  untag_drop (repeat false k ++ true :: r) n = Some (rev r).
+Proof.
+  induction k as [|k IH]; intros n r Hn; (destruct n as [|n]; [lia|]).
+  - reflexivity.
+  - cbn [repeat app untag_drop]. apply IH. lia.
+Qed.
+
+Lemma rev_repeat_same {A} (x : A) k : rev (repeat x k) = repeat x k.
+Proof.
+  induction k as [|k IH]; [reflexivity|]. cbn [repeat rev]. rewrite IH.
+  clear IH. induction k as [|k IH]; [reflexivity|]. cbn [repeat app]. rewrite IH. reflexivity.
+Qed.
+
+Lemma s_untag_data bits :
+  s_untag (data_bytes bits) (negb (length bits mod 8 =? 0)%nat) = Some bits.
+Proof.
+  rewrite s_untag_eq. cbv zeta. destruct (data_bytes_facts bits) as (E & _ & _). rewrite E.
+  rewrite negb_involutive. unfold s_pad.
+  destruct (Nat.eqb_spec (length bits mod 8) 0) as [E0|E0]; [reflexivity|].
+  assert (Er : rev (bits ++ [true] ++ repeat false (7 - length bits mod 8))
+               = repeat false (7 - length bits mod 8) ++ true :: rev bits).
+  { rewrite !rev_app_distr, rev_repeat_same, <- app_assoc. reflexivity. }
+  rewrite Er. pose proof (untag_drop_spec (7 - length bits mod 8) 7 (rev bits) ltac:(lia)) as Hd.
+  rewrite rev_involutive in Hd.
+  destruct (repeat false (7 - length bits mod 8) ++ true :: rev bits); [discriminate|exact Hd].
+Qed.
+
+(* ------------------------------------------------------------------ *)
+(* 8. take / take_uint / take_uints                                    *)
+(* ------------------------------------------------------------------ *)
+Lemma firstn_skipn_app {A} (a b : list A) :
+  firstn (length a) (a ++ b) = a /\ skipn (length a) (a ++ b) = b.
+Proof.
+  induction a as [|x a [IH1 IH2]]; [split; reflexivity|].
+  cbn [length app firstn skipn]. rewrite IH1, IH2. split; reflexivity.
+Qed.
+
+Lemma take_app n (a b : list N) : n = length a -> take n (a ++ b) = Some (a, b).
+Proof.
+  intros ->. unfold take. destruct (firstn_skipn_app a b) as [E1 E2]. rewrite E1, E2.
+  rewrite app_length. destruct (Nat.ltb_spec (length a + length b) (length a)); [lia|reflexivity].
+Qed.
+
+Lemma take_0 (d : list N) : take 0 d = Some ([], d).
+Proof. exact (take_app 0%nat [] d eq_refl). Qed.
+
+Lemma take_uint_be w n r : n < 256 ^ N.of_nat w -> take_uint w (be_bytes w n ++ r) = Some (n, r).
+Proof.
+  intro Hn. unfold take_uint. rewrite take_app by (symmetry; apply be_bytes_length).
+  rewrite of_be_be_bytes by exact Hn. reflexivity.
+Qed.
+
+Lemma take_uints_be w : forall xs r, Forall (fun x => x < 256 ^ N.of_nat w) xs ->
+  take_uints (length xs) w (concat (map (be_bytes w) xs) ++ r) = Some (xs, r).
+Proof.
+  induction xs as [|x xs IH]; intros r Hx; [reflexivity|].
+  inversion Hx as [|? ? Hx1 Hx2]; subst.
+  cbn [length map concat take_uints]. rewrite <- app_assoc, take_uint_be by exact Hx1.
+  rewrite IH by exact Hx2. reflexivity.
+Qed.
+
+(* ------------------------------------------------------------------ *)
+(* 9. one serialized cell                                              *)
+(* ------------------------------------------------------------------ *)
+Lemma d1_fields nr e m : (nr <= 4)%nat ->
+  let d1 := N.of_nat nr + 8 * b2n e + 32 * m in
+  N.to_nat (N.land d1 7) = nr /\ N.testbit d1 3 = e /\ N.testbit d1 4 = false.
+Proof.
+  intros Hn d1.
+  assert (Hb : b2n e <= 1) by (destruct e; cbn [b2n]; lia).
+  split; [|split].
+  - change 7 with (N.ones 3). rewrite N.land_ones. change (2 ^ 3) with 8. unfold d1. lia.
+  - rewrite N.testbit_eqb. change (2 ^ 3) with 8. unfold d1. destruct e; cbn [b2n]; lia.
+  - rewrite N.testbit_eqb. change (2 ^ 4) with 16. unfold d1. lia.
+Qed.
+
+Lemma refs_descriptor_inv nr e m d1 : refs_descriptor nr e m = Ok d1 ->
+  d1 = N.of_nat nr + 8 * b2n e + 32 * m /\ d1 < 256.
+Proof.
+  unfold refs_descriptor, to_byte1.
+  destruct (N.ltb_spec (N.of_nat nr + 8 * b2n e + 32 * m) 256) as [Hlt|]; [|discriminate].
+  intro E. injection E as <-. split; [reflexivity|exact Hlt].
+Qed.
+
+Lemma bits_descriptor_inv blen d2 : bits_descriptor blen = Ok d2 ->
+  d2 < 256 /\ N.to_nat ((d2 + 1) / 2) = ((blen + 7) / 8)%nat /\
+  N.odd d2 = negb (blen mod 8 =? 0)%nat /\ (blen <= 1023)%nat.
+Proof.
+  unfold bits_descriptor, to_byte1.
+  set (x := 2 * N.of_nat (blen / 8) + (if (blen mod 8 =? 0)%nat then 0 else 1)).
+  destruct (N.ltb_spec x 256) as [Hlt|]; [|discriminate].
+  intro E. injection E as <-. split; [exact Hlt|].
+  unfold x in *. clear x.
+  destruct (Nat.eqb_spec (blen mod 8) 0) as [E0|E0]; cbn [negb].
+  - split; [lia|]. split; [|lia]. rewrite N.add_0_r, N.odd_mul, andb_false_l. reflexivity.
+  - split; [lia|]. split; [|lia]. rewrite N.add_comm, N.odd_add_mul_2. reflexivity.
+Qed.
+
+Definition ser_bytes (c : kcell) (d1 d2 : N) (w : nat) (xs : list N) : list N :=
+  [d1; d2] ++ data_bytes (k_bits c) ++ concat (map (be_bytes w) xs).
+
+Definition shape_ok (c : kcell) : Prop :=
+  (length (k_refs c) <= 4)%nat /\
+  (k_ty c = (-1)%Z \/ (8 <= length (k_bits c))%nat /\ of_bits_signed (firstn 8 (k_bits c)) = k_ty c).
+
+Lemma s_cell_ser c d1 d2 w xs rest :
+  shape_ok c ->
+  refs_descriptor (length (k_refs c)) (is_exotic (k_ty c)) (k_mask c) = Ok d1 ->
+  bits_descriptor (length (k_bits c)) = Ok d2 ->
+  length xs = length (k_refs c) -> Forall (fun x => x < 256 ^ N.of_nat w) xs ->
+  s_cell (ser_bytes c d1 d2 w xs ++ rest) w
+  = Some (mkSC (k_ty c) (k_bits c) xs (length (ser_bytes c d1 d2 w xs)), rest).
+Proof.
+  intros [Hnr Hty] Hd1 Hd2 Hlen Hxs.
+  apply refs_descriptor_inv in Hd1. destruct Hd1 as [Ed1 _].
+  destruct (d1_fields (length (k_refs c)) (is_exotic (k_ty c)) (k_mask c) Hnr) as (F1 & F2 & F3).
+  cbv zeta in F1, F2, F3. rewrite <- Ed1 in F1, F2, F3.
+  apply bits_descriptor_inv in Hd2. destruct Hd2 as (_ & G1 & G2 & _).
+  destruct (data_bytes_facts (k_bits c)) as (_ & Dl & _).
+  assert (Elen : length (ser_bytes c d1 d2 w xs)
+                 = (length (ser_bytes c d1 d2 w xs ++ rest) - length rest)%nat).
+  { rewrite app_length. lia. }
+  rewrite Elen. unfold ser_bytes. rewrite <- !app_assoc. cbn [app].
+  set (d := d1 :: d2 :: data_bytes (k_bits c) ++ concat (map (be_bytes w) xs) ++ rest).
+  unfold s_cell. unfold d at 1. cbv beta iota zeta.
+  rewrite F1, F2, F3.
+  rewrite (proj2 (Nat.ltb_ge 4 (length (k_refs c))) ltac:(lia)). cbv beta iota.
+  rewrite take_0. cbv beta iota.
+  rewrite take_app by (rewrite G1, Dl; reflexivity). cbv beta iota.
+  rewrite G2, s_untag_data. cbv beta iota.
+  rewrite <- Hlen, take_uints_be by exact Hxs. cbv beta iota.
+  unfold is_exotic. destruct Hty as [Ety|[Hl8 Ety]].
+  - rewrite Ety. change ((-1 =? ty_ordinary)%Z) with true. cbn [negb andb]. reflexivity.
+  - rewrite (proj2 (Nat.ltb_ge (length (k_bits c)) 8) Hl8), andb_false_r, Ety.
+    destruct (negb (k_ty c =? ty_ordinary)%Z) eqn:Eex; [reflexivity|].
+    apply negb_false_iff in Eex. apply Z.eqb_eq in Eex. rewrite Eex. reflexivity.
+Qed.
+
+(* ------------------------------------------------------------------ *)
+(* 10. all cells of the bag                                            *)
+(* ------------------------------------------------------------------ *)
+Definition d1_of (c : kcell) : N :=
+  N.of_nat (length (k_refs c)) + 8 * b2n (is_exotic (k_ty c)) + 32 * k_mask c.
+Definition d2_of (c : kcell) : N :=
+  2 * N.of_nat (length (k_bits c) / 8) + (if (length (k_bits c) mod 8 =? 0)%nat then 0 else 1).
+Definition desc_ok (c : kcell) : Prop :=
+  refs_descriptor (length (k_refs c)) (is_exotic (k_ty c)) (k_mask c) = Ok (d1_of c) /\
+  bits_descriptor (length (k_bits c)) = Ok (d2_of c).
+
+Lemma desc_ok_of c d1 d2 :
+  refs_descriptor (length (k_refs c)) (is_exotic (k_ty c)) (k_mask c) = Ok d1 ->
+  bits_descriptor (length (k_bits c)) = Ok d2 -> desc_ok c.
+Proof.
+  intros H1 H2. split.
+  - rewrite H1. f_equal. apply refs_descriptor_inv in H1. apply H1.
+  - rewrite H2. f_equal. unfold bits_descriptor, to_byte1 in H2.
+    destruct (_ <? 256); [|discriminate]. injection H2 as <-. reflexivity.
+Qed.
+
+Section Bag.
+  Variable o : list kcell.
+  Variable w : nat.
+
+  Definition pos (r : kcell) : N := match index_of r o 0 with Ok i => i | Err _ => 0 end.
+  Definition xs_of (c : kcell) : list N := map pos (k_refs c).
+  Definition ser (c : kcell) : list N := ser_bytes c (d1_of c) (d2_of c) w (xs_of c).
+  Definition rec_of (c : kcell) : s_cellrec := mkSC (k_ty c) (k_bits c) (xs_of c) (length (ser c)).
+
+  (* every reference of c is found in o *)
+  Definition refs_found (c : kcell) : Prop :=
+    forall r, In r (k_refs c) -> exists i, index_of r o 0 = Ok i /\ i < 256 ^ N.of_nat w.
+
+  Lemma mapM_ok {A B} (f : A -> result B) (g : A -> B) l :
+    (forall x, In x l -> f x = Ok (g x)) -> mapM f l = Ok (map g l).
+  Proof.
+    induction l as [|x l IH]; intro Hf; [reflexivity|].
+    cbn [mapM map]. rewrite (Hf x (or_introl eq_refl)). cbn [bind].
+    rewrite IH by (intros y Hy; apply Hf; right; exact Hy). reflexivity.
+  Qed.
+
+  Lemma cell_serialize_ok c : desc_ok c -> refs_found c -> cell_serialize c o w = Ok (ser c).
+  Proof.
+    intros [H1 H2] Hf. unfold cell_serialize. rewrite H1, H2. cbn [bind].
+    rewrite (mapM_ok _ (fun r => be_bytes w (pos r))).
+    - cbn [bind]. unfold ser, ser_bytes, xs_of. rewrite map_map. reflexivity.
+    - intros r Hr. destruct (Hf r Hr) as (i & Hi & _). unfold pos. rewrite Hi. reflexivity.
+  Qed.
+
+  Definition cell_good (c : kcell) : Prop := shape_ok c /\ desc_ok c /\ refs_found c.
+
+  Lemma xs_bound c : refs_found c -> Forall (fun x => x < 256 ^ N.of_nat w) (xs_of c).
+  Proof.
+    intro Hf. unfold xs_of. apply Forall_forall. intros x Hx. apply in_map_iff in Hx.
+    destruct Hx as (r & <- & Hr). destruct (Hf r Hr) as (i & Hi & Hb). unfold pos. rewrite Hi. exact Hb.
+  Qed.
+
+  Lemma s_cell_good c rest : cell_good c -> s_cell (ser c ++ rest) w = Some (rec_of c, rest).
+  Proof.
+    intros (Hs & [H1 H2] & Hf). unfold ser, rec_of, ser.
+    apply s_cell_ser; auto.
+    - unfold xs_of. apply map_length.
+    - apply xs_bound. exact Hf.
+  Qed.
+
+  Lemma s_cells_good : forall l rest, (forall c, In c l -> cell_good c) ->
+    s_cells (length l) (concat (map ser l) ++ rest) w = Some (map rec_of l, rest).
+  Proof.
+    induction l as [|c l IH]; intros rest Hg; [reflexivity|].
+    cbn [length map concat s_cells]. rewrite <- app_assoc.
+    rewrite s_cell_good by (apply Hg; left; reflexivity).
+    rewrite IH by (intros x Hx; apply Hg; right; exact Hx). reflexivity.
+  Qed.
+
+  Lemma ser_length c : desc_ok c -> (length (k_refs c) <= 4)%nat ->
+    (2 <= length (ser c) <= 130 + 4 * w)%nat.
+  Proof.
+    intros [_ H2] Hn. apply bits_descriptor_inv in H2. destruct H2 as (_ & _ & _ & Hb).
+    unfold ser, ser_bytes. rewrite !app_length. cbn [length].
+    destruct (data_bytes_facts (k_bits c)) as (_ & Dl & _). rewrite Dl.
+    assert (Hc : length (concat (map (be_bytes w) (xs_of c))) = (length (k_refs c) * w)%nat).
+    { unfold xs_of. generalize (k_refs c). intro l. induction l as [|x l IHl]; [reflexivity|].
+      cbn [map concat length]. rewrite app_length, be_bytes_length, IHl. lia. }
+    rewrite Hc. split; [lia|].
+    assert ((length (k_bits c) + 7) / 8 <= 128)%nat by lia. nia.
+  Qed.
+
+  Lemma ser_bytes_ok c : desc_ok c -> bytes_ok (ser c).
+  Proof.
+    intros [H1 H2]. apply refs_descriptor_inv in H1. apply bits_descriptor_inv in H2.
+    unfold ser, ser_bytes, bytes_ok. cbn [app]. constructor; [apply H1|]. constructor; [apply H2|].
+    apply Forall_app. split; [apply data_bytes_facts|].
+    apply Forall_concat. apply Forall_forall. intros x Hx. apply in_map_iff in Hx.
+    destruct Hx as (y & <- & _). apply be_bytes_ok.
+  Qed.
+End Bag.
+
+(* ------------------------------------------------------------------ *)
+(* 11. references point forward: s_refs_ok and s_trees                 *)
+(* ------------------------------------------------------------------ *)
+Section Forward.
+  Variable U : kcell -> Prop.
+  Hypothesis U_eq : forall a b, U a -> U b -> (cell_eqb a b = true <-> a = b).
+
+  Lemma index_of_spec r : U r -> forall l a, (forall x, In x l -> U x) -> In r l ->
+    exists i, index_of r l a = Ok (a + N.of_nat i) /\ nth_error l i = Some r.
+  Proof.
+    intro Hr. induction l as [|x l IH]; intros a HU Hin; [destruct Hin|].
+    cbn [index_of]. destruct (cell_eqb r x) eqn:He.
+    - apply (U_eq r x Hr (HU x (or_introl eq_refl))) in He. subst x.
+      exists 0%nat. split; [f_equal; lia|reflexivity].
+    - destruct Hin as [->|Hin].
+      + assert (cell_eqb r r = true) by (apply (U_eq r r Hr Hr); reflexivity). congruence.
+      + destruct (IH (a + 1) (fun y Hy => HU y (or_intror Hy)) Hin) as (i & Hi & Hn).
+        exists (S i). split; [rewrite Hi; f_equal; lia|exact Hn].
+  Qed.
+
+  Variable o : list kcell.
+  Variable w : nat.
+  Hypothesis o_U : forall x, In x o -> U x.
+  Hypothesis o_nd : NoDup o.
+  Hypothesis o_topo : topo o.
+
+  (* the references of the cell at position i are found at later positions *)
+  Definition fwd (i : nat) (c : kcell) : Prop :=
+    forall r, In r (k_refs c) ->
+    exists j, index_of r o 0 = Ok (N.of_nat j) /\ (i < j)%nat /\ nth_error o j = Some r.
+
+  Lemma fwd_at l1 c l2 : o = l1 ++ c :: l2 -> fwd (length l1) c.
+  Proof.
+    intros Eo r Hr.
+    pose proof o_topo as Tp. rewrite Eo in Tp. apply topo_suffix in Tp. destruct Tp as [Hrefs _].
+    specialize (Hrefs r Hr).
+    assert (Hin : In r o) by (rewrite Eo; apply in_or_app; right; right; exact Hrefs).
+    destruct (index_of_spec r (o_U r Hin) o 0 o_U Hin) as (j & Hj & Hn).
+    exists j. split; [exact Hj|]. split; [|exact Hn].
+    pose proof o_nd as Nd. rewrite Eo in Nd, Hn. exact (NoDup_after l1 l2 c r j Nd Hrefs Hn).
+  Qed.
+
+  Lemma pos_fwd r j : index_of r o 0 = Ok (N.of_nat j) -> pos o r = N.of_nat j.
+  Proof. intro Hj. unfold pos. rewrite Hj. reflexivity. Qed.
+
+  Lemma refs_ok_suffix : forall suf pre, o = pre ++ suf ->
+    s_refs_ok (map (rec_of o w) suf) (N.of_nat (length pre)) (N.of_nat (length o)) = true.
+  Proof.
+    induction suf as [|c suf IH]; intros pre Eo; [reflexivity|].
+    cbn [map s_refs_ok]. apply andb_true_intro. split.
+    - cbn [rec_of sc_refs]. unfold xs_of. apply forallb_forall. intros x Hx.
+      apply in_map_iff in Hx. destruct Hx as (r & <- & Hr).
+      destruct (fwd_at pre c suf Eo r Hr) as (j & Hj & Hlt & Hn).
+      rewrite (pos_fwd r j Hj).
+      assert (j < length o)%nat by (apply nth_error_Some; congruence). lia.
+    - replace (N.of_nat (length pre) + 1) with (N.of_nat (length (pre ++ [c])))
+        by (rewrite app_length; cbn [length]; lia).
+      apply IH. rewrite <- app_assoc. exact Eo.
+  Qed.
+
+  Lemma trees_suffix : forall suf pre, o = pre ++ suf ->
+    s_trees (map (rec_of o w) suf) (length pre) = map k_tree suf.
+  Proof.
+    induction suf as [|c suf IH]; intros pre Eo; [reflexivity|].
+    cbn [map s_trees].
+    assert (Eb : s_trees (map (rec_of o w) suf) (S (length pre)) = map k_tree suf).
+    { replace (S (length pre)) with (length (pre ++ [c])) by (rewrite app_length; cbn [length]; lia).
+      apply IH. rewrite <- app_assoc. exact Eo. }
+    rewrite Eb. f_equal. rewrite (k_tree_eq c). cbn [rec_of sc_ty sc_bits sc_refs]. f_equal.
+    unfold xs_of. rewrite map_map. apply map_ext_in. intros r Hr.
+    destruct (fwd_at pre c suf Eo r Hr) as (j & Hj & Hlt & Hn).
+    rewrite (pos_fwd r j Hj), Nat2N.id.
+    rewrite Eo in Hn. rewrite nth_error_app2 in Hn by lia.
+    replace (j - length pre)%nat with (S (j - S (length pre))) in Hn by lia. cbn [nth_error] in Hn.
+    apply (map_nth_error k_tree) in Hn. apply nth_error_nth. exact Hn.
+  Qed.
+
+  Lemma refs_found_all c : In c o -> N.of_nat (length o) < 256 ^ N.of_nat w -> refs_found o w c.
+  Proof.
+    intros Hc Hlen r Hr. apply in_split in Hc. destruct Hc as (l1 & l2 & Eo).
+    destruct (fwd_at l1 c l2 Eo r Hr) as (j & Hj & _ & Hn).
+    exists (N.of_nat j). split; [exact Hj|].
+    assert (j < length o)%nat by (apply nth_error_Some; congruence). lia.
+  Qed.
+End Forward.
+
+(* ------------------------------------------------------------------ *)
+(* 12. the offset index                                                *)
+(* ------------------------------------------------------------------ *)
+Fixpoint entries (cache : bool) (acc : N) (sers : list (list N)) : list N :=
+  match sers with
+  | [] => []
+  | s :: r => let acc' := acc + N.of_nat (length s) in
+              (if cache then acc' * 2 else acc') :: entries cache acc' r
+  end.
+
+Lemma index_fold pw (cache : bool) : forall sers acc out,
+  fold_left (fun '((acc, out) : N * list (list N)) (s : list N) =>
+               let acc' := acc + N.of_nat (length s) in
+               (acc', out ++ [be_bytes pw (if cache then acc' * 2 else acc')])) sers (acc, out)
+  = (acc + N.of_nat (length (concat sers)), out ++ map (be_bytes pw) (entries cache acc sers)).
+Proof.
+  induction sers as [|s r IH]; intros acc out.
+  - cbn [fold_left concat length entries map]. rewrite app_nil_r. f_equal. lia.
+  - cbn [fold_left]. rewrite IH. cbn [concat entries map]. rewrite app_length, <- app_assoc.
+    cbn [app]. f_equal. lia.
+Qed.
+
+Lemma entries_length cache : forall sers acc, length (entries cache acc sers) = length sers.
+Proof. induction sers as [|s r IH]; intro acc; [reflexivity|]. cbn [entries length]. rewrite IH. reflexivity. Qed.
+
+Lemma entries_bound cache : forall sers acc x, In x (entries cache acc sers) ->
+  x <= (if cache then (acc + N.of_nat (length (concat sers))) * 2 else acc + N.of_nat (length (concat sers))).
+Proof.
+  induction sers as [|s r IH]; intros acc x Hx; [destruct Hx|].
+  cbn [entries] in Hx. cbn [concat]. rewrite app_length. destruct Hx as [<-|Hx].
+  - destruct cache; lia.
+  - apply IH in Hx. destruct cache; lia.
+Qed.
+
+Lemma index_ok_entries o w cache : forall l acc,
+  s_index_ok (map (rec_of o w) l) (entries cache acc (map (ser o w) l)) acc cache = true.
+Proof.
+  induction l as [|c l IH]; intro acc; [reflexivity|].
+  cbn [map entries s_index_ok]. cbn [rec_of sc_len]. rewrite IH, andb_true_r.
+  apply N.eqb_eq. destruct cache; [|reflexivity].
+  rewrite N.shiftr_div_pow2. change (2 ^ 1) with 2. apply N.div_mul. lia.
+Qed.
